@@ -15,11 +15,11 @@ func PlanFor(prop, tier string) (*Plan, error) {
 		Assume: []string{trustNote, "values outside the stated alphabets and budgets are not covered"}}
 	switch prop {
 	case "C01":
-		p.Scenarios = append(moneyScenarios(tier), S1d(tier), S2d(tier), S10(tier, false), S10(tier, true))
+		p.Scenarios = append(moneyScenarios(tier), S1d(tier), S2d(tier), S10(tier, false), S10(tier, true), S1a(tier, true).withBudget(Budget{"bid": 2, "allow": 1, "update": 0, "mod": 1, "block": 3, "tick": 0, "cancel": 1}, "-lite").withFeeChanges(), S2a(tier, true).withBudget(Budget{"bid": 2, "allow": 1, "update": 0, "mod": 1, "block": 2, "tick": 0, "cancel": 0}, "-lite").withFeeChanges())
 		p.Monitors = func() []Monitor { return []Monitor{NewC01()} }
 		p.Rule = "explicit-state DFS over real keeper code (CacheContext branching), dedup on sha256(raw module store ‖ tracked balances ‖ block time ‖ budgets); every transition checks escrow balance minus record-derived expectation for all three escrows of every auction; non-trivial = distinct post-states in which some escrow expectation is non-zero"
 	case "C02":
-		p.Scenarios = append(moneyScenarios(tier), S1d(tier), S2d(tier), S10(tier, false), S10(tier, true))
+		p.Scenarios = append(moneyScenarios(tier), S1d(tier), S2d(tier), S10(tier, false), S10(tier, true), S1a(tier, true).withBudget(Budget{"bid": 2, "allow": 1, "update": 0, "mod": 1, "block": 3, "tick": 0, "cancel": 1}, "-lite").withFeeChanges(), S2a(tier, true).withBudget(Budget{"bid": 2, "allow": 1, "update": 0, "mod": 1, "block": 2, "tick": 0, "cancel": 0}, "-lite").withFeeChanges())
 		p.Monitors = func() []Monitor { return []Monitor{NewC02()} }
 		p.Rule = "same exploration; every transition checks zero-sum, supply, deltas == emitted bank transfers, and the op's exact due (fee + reservation, settlement allocations/refunds/unsold/proceeds, instalments); non-trivial = distinct bids / modifications / settlements with a winner / instalment releases"
 	case "C03":
